@@ -21,11 +21,19 @@ EXTENDS Naturals, Sequences, FiniteSets, TLC
 CONSTANTS NN,        \* number of nodes
           MaxEv,     \* history length bound
           MaxPT,     \* physical readings 0..MaxPT
+          Mems,      \* membership modes explored: subset of {"all", "prefix", "self"}
           Dev        \* set of deviation names
 
 Nodes == 1..NN
-VARIABLES lam, vc, hlc, ev, hb
-vars == <<lam, vc, hlc, ev, hb>>
+VARIABLES lam, vc, hlc, ev, hb,
+          mem,       \* membership mode of this behaviour (which node_ids every VectorClock was built with)
+          vk         \* vk[n] = key set of VectorClock._vector at node n (grows on receive)
+vars == <<lam, vc, hlc, ev, hb, mem, vk>>
+
+\* node_ids a VectorClock is constructed with: the full list, the nodes that existed when n started
+\* (lazily discovered / growing membership), or only n itself.  vc[n][k] = 0 for k outside vk[n]
+\* (the code reads missing entries with .get(k, 0)).
+InitKeys(m, n) == IF m = "all" THEN Nodes ELSE IF m = "prefix" THEN 1..n ELSE {n}
 
 Max2(a, b) == IF a >= b THEN a ELSE b
 Max3(a, b, c) == Max2(a, Max2(b, c))
@@ -50,8 +58,12 @@ HlcRecv(h, p, r) ==
          ELSE <<mx, 0>>
 
 (* ------------------------------ comparisons ----------------------------- *)
-\* VectorClock.happened_before
+\* VectorClock.happened_before on full vectors (missing entries = 0)
 VcLess(a, b) == (\A k \in DOMAIN a : a[k] <= b[k]) /\ (\E k \in DOMAIN a : a[k] < b[k])
+\* ... as the code computes it from the two key sets ka, kb (union of the keys, missing = 0)
+VcLessK(a, ka, b, kb) ==
+    LET ks == IF "vc_compare_own_keys_only" \in Dev THEN ka ELSE ka \cup kb IN
+    (\A k \in ks : a[k] <= b[k]) /\ (\E k \in ks : a[k] < b[k])
 \* HLCTimestamp.__lt__ on (physical, logical, node)
 HlcLess(a, b) == \/ a[1] < b[1]
                  \/ a[1] = b[1] /\ a[2] < b[2]
@@ -71,14 +83,19 @@ Init ==
     /\ hlc = [n \in Nodes |-> <<0, 0>>]
     /\ ev = <<>>
     /\ hb = {}
+    /\ mem \in Mems
+    /\ vk = [n \in Nodes |-> InitKeys(mem, n)]
 
 AppendEv(n, kind, s, p, l, v, h) ==
     /\ lam' = [lam EXCEPT ![n] = l]
     /\ vc' = [vc EXCEPT ![n] = v]
     /\ hlc' = [hlc EXCEPT ![n] = h]
+    /\ vk' = [vk EXCEPT ![n] = IF s = 0 THEN @ ELSE @ \cup ev[s].vk]
     /\ ev' = Append(ev, [n |-> n, k |-> kind, s |-> s, p |-> p, lam |-> l, vc |-> v,
+                         vk |-> IF s = 0 THEN vk[n] ELSE vk[n] \cup ev[s].vk,
                          hlc |-> <<h[1], h[2], n>>])
     /\ hb' = HbExtend(hb, ev, Len(ev) + 1, n, s)
+    /\ UNCHANGED mem
 
 Local(n, p) ==
     /\ Len(ev) < MaxEv
@@ -107,7 +124,9 @@ InvLamport == \A pr \in hb : ev[pr[1]].lam < ev[pr[2]].lam
 \* "... and hybrid-logical timestamps of a are smaller than those of b"
 InvHLC == \A pr \in hb : HlcLess(ev[pr[1]].hlc, ev[pr[2]].hlc)
 \* "vector clocks order a before b exactly when a happened before b"
-InvVCForward == \A pr \in hb : VcLess(ev[pr[1]].vc, ev[pr[2]].vc)
-InvVCBackward == \A i, j \in 1..Len(ev) :
-                    (i # j /\ VcLess(ev[i].vc, ev[j].vc)) => <<i, j>> \in hb
+VcBefore(i, j) == VcLessK(ev[i].vc, ev[i].vk, ev[j].vc, ev[j].vk)
+InvVCForward == \A pr \in hb : VcBefore(pr[1], pr[2])
+InvVCBackward == \A i, j \in 1..Len(ev) : (i # j /\ VcBefore(i, j)) => <<i, j>> \in hb
+\* the key-set based comparison is the comparison of the full vectors, entries outside the keys are 0
+InvKeys == \A i \in 1..Len(ev) : \A k \in Nodes \ ev[i].vk : ev[i].vc[k] = 0
 =============================================================================
